@@ -362,6 +362,96 @@ def cxx_cases(ck, only=None):
     ck.extra["cxx_modes"] = len(modes)
 
 
+SPECIAL_NAMES = [("size_t", "unsigned long", 8), ("ssize_t", "long", 8), ("uint8_t", "unsigned char", 1), ("int64_t", "long", 8), ("uintptr_t", "unsigned long", 8),
+                 ("intptr_t", "long", 8), ("ptrdiff_t", "long", 8), ("wchar_t_like", "int", 4), ("uint32_t", "unsigned int", 4), ("int8_t", "signed char", 1)]
+
+
+def special_names(ck, only=None):
+    """Typedef names that bindgen maps by NAME (the <stdint.h> / <stddef.h> families) when they are blocklisted, with and without
+    --no-size_t-is-usize: wherever a use still names the blocklisted identifier, nothing may be derived through it - the output must
+    compile against a stand-in that implements no trait."""
+    import re
+    wd = os.path.join(ck.wd, "specialnames")
+    os.makedirs(wd, exist_ok=True)
+    rows = [("default", []), ("no-size_t-is-usize", ["--no-size_t-is-usize"]), ("derives", ["--with-derive-default", "--with-derive-hash", "--with-derive-partialeq"]),
+            ("no-size_t+derives", ["--no-size_t-is-usize", "--with-derive-default", "--with-derive-hash", "--with-derive-partialeq", "--with-derive-eq"])]
+    jobs, info = [], {}
+    for name, cty, size in SPECIAL_NAMES:
+        hp = os.path.join(wd, f"sn_{name}.h")
+        open(hp, "w").write(f"typedef {cty} {name};\nstruct H_{name} {{ {name} v; int z; }};\nstruct A_{name} {{ {name} arr[3]; }};\n{name} f_{name}({name} x, {name} *p);\n"
+                            f"struct Ctl_{name} {{ {cty} v; int z; }};\n")
+        for rn, fl in rows:
+            jid = f"{name}|{rn}"
+            jobs.append({"id": jid, "args": [hp, "--formatter", "prettyplease", "--blocklist-type", name] + fl})
+            info[jid] = (name, cty, size, rn)
+    res = common.run_jobs(jobs, wd, timeout=60)
+
+    def one(jid):
+        name, cty, size, rn = info[jid]
+        r = res[jid]
+        if r["status"] != "ok":
+            return jid, "generation-failed", str(r)[:200]
+        text = r["text"]
+        if re.search(rf"\b(struct|type|union|enum)\s+{name}\b", text):
+            return jid, "defined", f"the blocklisted name {name} is defined in the output"
+        names_it = bool(re.search(rf"\b{name}\b", text))
+        bp = os.path.join(wd, f"{name}_{rn.replace('+', '_')}.rs")
+        rust_int = {1: "u8", 4: "u32", 8: "u64"}[size]
+        standin = f"#[repr(transparent)] pub struct {name}({rust_int});\n" if names_it else ""
+        open(bp, "w").write("#![allow(warnings)]\n" + standin + text)
+        ok, err = common.rustc_meta(bp)
+        if not ok:
+            return jid, "does-not-compile", " | ".join(re.findall(r"error(?:\[E\d+\])?: .*", err)[:3])[:400] + (" (stand-in without trait impls supplied)" if names_it else "")
+        return jid, None, names_it
+    for jid, what, why in common.pmap(one, list(info)):
+        name, cty, size, rn = info[jid]
+        ck.count()
+        ck.nontriv(("specialname", jid))
+        if what:
+            ck.violation(f"special-name {name} row={rn} {what}", {"mode": "specialnames", "why": f"--blocklist-type {name} ({rn}): {why}"})
+    ck.extra["special_name_runs"] = len(jobs)
+
+
+def blocklist_file_paths(ck, only=None):
+    """--blocklist-file patterns are matched against the file names clang reports. The same header reached through a plain
+    path, through `dir/../dir`, through a symbolic link to its directory and through a symbolic link to the file: a pattern that
+    names a component of the path AS SPELLED keeps blocklisting it, and nothing from that file is defined."""
+    wd = os.path.join(ck.wd, "blfile")
+    import shutil
+    shutil.rmtree(wd, ignore_errors=True)
+    os.makedirs(os.path.join(wd, "proj", "include"), exist_ok=True)
+    os.makedirs(os.path.join(wd, "proj", "vendor-1.2"), exist_ok=True)
+    os.symlink("vendor-1.2", os.path.join(wd, "proj", "vendor"))
+    open(os.path.join(wd, "proj", "vendor-1.2", "secret.h"), "w").write("struct Secret { int s; };\nint secret_fn(struct Secret *p);\n")
+    os.symlink(os.path.join(wd, "proj", "vendor-1.2", "secret.h"), os.path.join(wd, "proj", "include", "linked_secret.h"))
+    main = os.path.join(wd, "proj", "include", "main.h")
+    cases = [("plain", "-I" + os.path.join(wd, "proj", "vendor-1.2"), '#include "secret.h"', ".*/vendor-1.2/.*"),
+             ("dotdot", "-I" + os.path.join(wd, "proj", "include", "..", "vendor-1.2"), '#include "secret.h"', ".*/vendor-1.2/.*"),
+             ("symlinked-dir", "-I" + os.path.join(wd, "proj", "vendor"), '#include "secret.h"', ".*/vendor/.*"),
+             ("dotdot+symlinked-dir", "-I" + os.path.join(wd, "proj", "include", "..", "vendor"), '#include "secret.h"', ".*/vendor/.*"),
+             ("dotdot+symlinked-dir-by-name", "-I" + os.path.join(wd, "proj", "include", "..", "vendor"), '#include "secret.h"', ".*secret\\.h"),
+             ("symlinked-file", "-I" + os.path.join(wd, "proj", "include"), '#include "linked_secret.h"', ".*linked_secret\\.h")]
+    jobs = []
+    for cn, inc, line, pat in cases:
+        mp = os.path.join(wd, "proj", "include", f"main_{cn.replace('+', '_')}.h")
+        open(mp, "w").write(line + "\nstruct Uses { struct Secret *p; int own; };\nint own_fn(void);\n")
+        jobs.append({"id": cn, "args": [mp, "--formatter", "none", "--no-layout-tests", "--blocklist-file", pat, "--", inc], "inventory": True})
+    res = common.run_jobs(jobs, wd, timeout=60)
+    for cn, inc, line, pat in cases:
+        r = res[cn]
+        ck.count()
+        ck.nontriv(("blfile", cn))
+        if r["status"] != "ok":
+            ck.violation(f"blocklist-file path={cn} generation-failed", {"mode": "blfile", "why": str(r)[:200]})
+            continue
+        names = defined_names(r["inventory"])
+        bad = sorted(n for n in ("Secret", "secret_fn") if n in names)
+        missing = sorted(n for n in ("Uses", "own_fn") if n not in names)
+        if bad or missing:
+            ck.violation(f"blocklist-file path={cn}", {"mode": "blfile", "why": f"pattern `{pat}` with include path {inc}: defined although the file is blocklisted: {bad}; own items missing: {missing}"})
+    ck.extra["blocklist_file_path_cases"] = len(cases)
+
+
 def run(ck, only=None):
     inner = family(ck.tier, ck.seed)
     total = 0
@@ -374,6 +464,10 @@ def run(ck, only=None):
         same_name_cases(ck, only)
     if not only or str(only.get("mode", "")).startswith("cxx:"):
         cxx_cases(ck, only)
+    if not only or only.get("mode") == "specialnames":
+        special_names(ck, only)
+    if not only or only.get("mode") == "blfile":
+        blocklist_file_paths(ck, only)
     ck.sample({"mode": "blocklist", "inner": inner[5].cid, "flags": ["--blocklist-type", "K\\d+_BL"], "stand-in": "#[repr(C, align(A))] pub struct Kn_BL(pub [u8; S]);"})
     ck.extra["holders"] = total
     ck.assume("the stand-in definition is supplied as a raw line with the size and alignment the C compiler reports; it implements no trait "
